@@ -113,8 +113,11 @@ def main():
             own = target in fired
             if meta.get("neutralised_by"):
                 neutral += 1
-                print("%-10s target=%s NEUTRALISED by fix %s: %s" % (os.path.relpath(seed_dir, root), target, meta["neutralised_by"], "silent (as it must be)" if not fired else "FALSE ALARM %s" % {p: r[1][:3] for p, r in fired.items()}), flush=True)
-                false_alarms += bool(fired)
+                also = set(meta.get("still_breaks", []))
+                bad = {p: r[1][:3] for p, r in fired.items() if p not in also}
+                print("%-10s target=%s NEUTRALISED by fix %s: %s%s" % (os.path.relpath(seed_dir, root), target, meta["neutralised_by"], "silent (as it must be)" if not bad else "FALSE ALARM %s" % bad,
+                      ("; still breaks %s, reported by %s" % (sorted(also), sorted(p for p in fired if p in also))) if also else ""), flush=True)
+                false_alarms += bool(bad)
                 continue
             caught += bool(fired)
             miss += (not own)
